@@ -88,6 +88,37 @@ def run_seed(batch_seed, prop, index):
 # fork isolation
 # ----------------------------------------------------------------------------
 _NESTED = [False]
+_REACH = [None]
+
+
+def _reach_start():
+    """tools/reach.py only (VERIF_REACH_DIR set): line coverage of the code under test, one data file
+    per forked process.  Never active in a registered check."""
+    d = os.environ.get("VERIF_REACH_DIR")
+    if not d:
+        return
+    try:
+        import coverage
+        if _REACH[0] is not None:
+            _REACH[0].stop()
+        repo = os.environ.get("VERIF_REPO", "/repo")
+        cov = coverage.Coverage(data_file=os.path.join(d, "cov"), data_suffix=True,
+                                include=[os.path.join(repo, "signac", "*")], config_file=False)
+        cov.start()
+        _REACH[0] = cov
+    except Exception:  # noqa: BLE001
+        _REACH[0] = None
+
+
+def _reach_save():
+    cov = _REACH[0]
+    if cov is not None:
+        try:
+            cov.stop()
+            cov.save()
+            cov.start()
+        except Exception:  # noqa: BLE001
+            pass
 
 
 def run_forked(fn, timeout=60.0, with_sender=False):
@@ -120,11 +151,13 @@ def run_forked(fn, timeout=60.0, with_sender=False):
                     pass
 
             def send(obj):
+                _reach_save()
                 view = memoryview(pickle.dumps(obj, protocol=4))
                 while view:
                     n = os.write(w, view)
                     view = view[n:]
 
+            _reach_start()
             try:
                 obj = ("ok", fn(send) if with_sender else fn())
             except BaseException:  # noqa: BLE001
